@@ -475,8 +475,9 @@ MUTANTS = [
          new="""                _ => panic!("expected only types, functions, and instance types"),
             },"""),
     dict(id="c20-revert-name-keyed-map", prop="C20", expect="R20.1|work-list-is-1-1", file="crates/wac-resolver/src/registry.rs",
-         old="""            .collect::<Result<Vec<(PackageName, (Option<Version>, SourceSpan))>, Error>>()?;""",
-         new="""            .collect::<Result<IndexMap<PackageName, (Option<Version>, SourceSpan)>, Error>>()?;"""),
+         edits=[("""            .collect::<Result<Vec<(PackageName, (Option<Version>, SourceSpan))>, Error>>()?;""",
+                 """            .collect::<Result<IndexMap<PackageName, (Option<Version>, SourceSpan)>, Error>>()?;"""),
+                ("""                        .find(|(n, _)| *n == name)""", """                        .find(|(n, _)| **n == name)""")]),
     dict(id="c03-imports-filter-not-negated", prop="C03", expect="R03.1|unsatisfied-filter|imports", file=G,
          old="""                .filter(|(i, _)| !node.is_arg_satisfied(*i));
 
